@@ -164,7 +164,9 @@ def generate(seed, tier, index, pid=ID, spec_p=None, p_overlap=0.06, script_p=No
     nscripts = rf.randint(1, 3)
     scripts, kinds, steps = [], [], []
     same_dims_spec = None
-    for j in range(nscripts):
+    period0 = 16 if tier == "quick" else 4
+    is_sweep = (pid == ID and index % period0 == period0 - 1)
+    for j in range(0 if is_sweep else nscripts):
         kind = rs.sub(j).choice(C.KINDS)
         spec = same_dims_spec if (overlap and same_dims_spec is not None) else None
         if spec is None and j > 0 and rs.sub(j, "sibq").chance(0.3):
@@ -177,17 +179,55 @@ def generate(seed, tier, index, pid=ID, spec_p=None, p_overlap=0.06, script_p=No
         scripts.append(e)
         kinds.append(kind)
         steps.append(e["phys"]["sp"]["steps"])
+    sweep = None
+    period = 16 if tier == "quick" else 4
+    if pid == ID and index % period == period - 1:
+        # fault-point sweep: a seeded base history of 15 loop ops, re-run with one lifecycle fault at every position
+        w = index // period
+        group, within = w // 48, w % 48
+        sweep = {"group": group, "position": within % 16, "fault": ["F5_finalize_resetup", "F6_abandon_new_object",
+                                                                    "F7_finalize_x3_resetup"][within // 16]}
+        gb = Stream(pid, seed, tier, "sweep", group)
+        rs, ru, rk, rf = gb.sub("spec"), gb.sub("units"), gb.sub("script"), gb.sub("sched")
+        overlap = False
+        nscripts = 1
     lifetimes = []
+    if sweep is not None:
+        kind = rs.choice(C.KINDS)
+        e = C.make_script_entry(rs, ru, rk, kind, spec_p, dict(script_p, steps=(6, 30)), rich=rs.chance(0.3))
+        scripts, kinds, steps = [e], [kind], [e["phys"]["sp"]["steps"]]
     for j in range(nscripts):
         lifetimes.append({"pyseed": 1, "episodes": [
             {"obj": 0, "kind": kinds[j], "via": "LibRDEngine", "script": j,
              "ops": [["poison", 0], ["setup"], ["is_complete"], ["drive", [["iterate"]], CAP], ["is_complete"], ["output"],
                      ["observe"], ["iterate"], ["observe"], ["finalize"]]}]})
-    eps, faults = gen_history(rf, nscripts, kinds, steps, overlap)
+    if sweep is None:
+        eps, faults = gen_history(rf, nscripts, kinds, steps, overlap)
+    else:
+        base = [_loop_op(rf, steps[0]) for _ in range(15)]
+        eps = []
+        cur = 0
+
+        def ep(obj, ops, new=False):
+            eps.append({"obj": obj, "new": new, "kind": kinds[0], "via": "LibRDEngine", "script": 0, "ops": ops})
+        ep(0, [["poison", 0], ["setup"], ["is_complete"]])
+        for k in range(16):
+            if k == sweep["position"]:
+                if sweep["fault"] == "F5_finalize_resetup":
+                    ep(cur, [["finalize"], ["setup"], ["is_complete"]])
+                elif sweep["fault"] == "F6_abandon_new_object":
+                    cur = 1
+                    ep(cur, [["setup"], ["is_complete"]], new=True)
+                else:
+                    ep(cur, [["finalize"], ["finalize"], ["finalize"], ["setup"], ["is_complete"]])
+            if k < 15:
+                ep(cur, [base[k], ["is_complete"]])
+        ep(cur, [["drive", [["iterate_n", 5]], CAP], ["is_complete"], ["output"], ["output"], ["finalize"], ["finalize"]])
+        faults = ["sweep:" + sweep["fault"]]
     lifetimes.append({"pyseed": rf.bits(30), "episodes": eps})
     return {"format": 1, "property": pid, "seed": seed, "tier": tier, "index": index, "build": "plain",
             "scripts": scripts, "lifetimes": lifetimes,
-            "meta": {"overlap": overlap, "faults": faults, "nscripts": nscripts, "kinds": kinds}}
+            "meta": {"overlap": overlap, "faults": faults, "nscripts": nscripts, "kinds": kinds, "sweep": sweep}}
 
 
 def continue_after(case, results):
@@ -229,7 +269,10 @@ def check(case, results):
     meta = case["meta"]
     ns_scripts = meta["nscripts"]
     stats = {"cases": 1, "lifetimes": len(results), "faults": {f: 1 for f in meta["faults"]},
-             "config": {"overlap" if meta["overlap"] else "sequential": 1}, "mlife_pairs": set()}
+             "config": {"overlap" if meta["overlap"] else ("sweep" if meta.get("sweep") else "sequential"): 1},
+             "mlife_pairs": set()}
+    if meta.get("sweep"):
+        stats["sweep_points"] = {"%s@%d" % (meta["sweep"]["fault"], meta["sweep"]["position"])}
     # ---- reference lifetimes
     N = {}
     refbytes = {}
